@@ -19,8 +19,19 @@ class of problem persists, so a root cause has one signature ``<class>: <base>.<
 A tree in which a receiver was found modified re-baselines its live nodes and counts (does not report) the
 deviations that do not reproduce on fresh objects: they are consequences of the reported modification.
 
-Mutations caught (each alone in a private copy, ``VF_REPO=/tmp/wt-stmt1 ./check C03 --no-evidence``):
-MUTATIONS
+Internal errors (AttributeError, AssertionError ...) raised by a derivation or a compilation are C22's subject: here
+they are a node's stable outcome (recorded as a note), so "compiles like before" also covers "fails like before".
+
+Mutations caught (each alone in a private copy, ``VF_REPO=/tmp/wt-stmt1 ./check C03 --no-evidence``; new signatures
+on top of the clean tree's reported ones):
+  N5  sql/selectable.py Select.add_columns: ``self._raw_columns = self._raw_columns + [...]`` -> ``+= [...]`` (extends the
+      list shared with the receiver) -> "receiver modified by a generative call: select then .add_columns(s)"
+  N1  dialects/oracle/base.py translate_select_structure: ``select = select._generate()`` dropped, so ``_oracle_visit`` is
+      written into the user's statement -> new "statement changed after later derivations..." / fresh-route signatures
+  N3  sql/base.py Generative._generate: memoised attributes no longer skipped when copying __dict__
+      -> "derived from compiled ancestors it differs from the same chain on untouched objects" signatures
+  N4  sql/elements.py BindParameter.__setstate__: the original key is forgotten (always "param")
+      -> "pickle round trip compiles differently: select.where(c1) -> parameters on sqlite" (and ~1000 more)
 """
 from __future__ import annotations
 
@@ -430,8 +441,20 @@ def first_diff(snap1, snap2, dialects):
     for d, x, y in zip(dialects, snap1, snap2):
         if x != y:
             what = "SQL" if x[0] != y[0] else "parameters"
-            return d.name, what, x, y
+            return getattr(d, "_vf_label", d.name), what, x, y
     return None
+
+
+def the_dialects():
+    """the five default dialects plus Oracle as a pre-12c server (ROWNUM wrapping instead of FETCH FIRST: the
+    compiler path that restructures the user's SELECT)"""
+    from sqlalchemy.engine import url as _url
+
+    ds = sg.DIALECTS()
+    old = _url.URL.create("oracle").get_dialect()(enable_offset_fetch=False)  # what initialize() sets below 12c
+    old.server_version_info = (11, 2)
+    old._vf_label = "oracle-rownum"
+    return ds + [old]
 
 
 class Node:
@@ -500,10 +523,22 @@ def check_call(node, opname, fn, dialects, recompile):
 def check_new(stmt, dialects, twice=True):
     """snapshot a new statement; compilation must be deterministic and must not modify it.
     ``twice=False`` (explorer): the second compilation of every node is the one of the final pass."""
+    problems = []
     fp0 = fingerprint(stmt)
+    # the (memoised) cache key a later execution would use must be the key of *this* statement, not one carried over
+    # from the statement it was derived from
+    if fp0[0] is not None and hasattr(stmt, "_generate_cache_key"):
+        try:
+            mk_ = stmt._generate_cache_key()
+        except ACCEPTABLE:
+            mk_ = None
+        if mk_ is not None:
+            memo = (mk_.key, tuple(repr(bp.value) for bp in mk_.bindparams), repr(mk_.params))
+            if memo != fp0[0]:
+                problems.append(("the statement's memoised cache key is not its own", "stale _generate_cache_key()",
+                                 "memoised: %r\nfresh:    %r" % (memo[1:], fp0[0][1:])))
     snap = snapshot(stmt, dialects)
     snap2 = snapshot(stmt, dialects) if twice else snap
-    problems = []
     if snap != snap2:
         d = first_diff(snap, snap2, dialects)
         problems.append(("two consecutive compilations differ", "%s on %s" % (d[1], d[0]), "%r\n%r" % (d[2], d[3])))
@@ -668,6 +703,13 @@ def report(rec, base, chain, op, problems, dialects, shard):
             rec.count("problems_repeating_an_analysed_one")
             continue
         _SEEN_KEYS.add(key)
+        if tuple(shard) in _TREES_WITH_A_REPORTED_MODIFICATION:
+            # a receiver of this tree is known (reported) to have been modified in place: a deviation that does not
+            # reproduce on fresh objects is a consequence of that (statements share the receiver's internals)
+            again = probe(base, tuple(chain), op, dialects)
+            if not any(x[0] == pr[0] for x in (again or ())):
+                rec.count("tree_only_deviations_explained_by_a_reported_receiver_modification")
+                continue
         _REPORTS[0] += 1
         if _REPORTS[0] > MAX_ANALYSED_PER_SHARD:
             # enough minimised findings from this tree; the rest is counted (simplest-first order: these are larger)
@@ -806,7 +848,7 @@ def run_shard(shard, tier, rec):
     _REPORTS[0] = 0
     _SEEN_KEYS.clear()
     _TREES_WITH_A_REPORTED_MODIFICATION.discard(tuple(shard))
-    dialects = sg.DIALECTS()
+    dialects = the_dialects()
     depth = 3 if tier == "quick" else 4
     nodes = explore(rec, base, first, depth, dialects, tier, shard)
     rec.count("nodes", len(nodes))
@@ -823,7 +865,7 @@ def replay(case):
 
     rec = Rec(ID)
     warnings.simplefilter("ignore")
-    dialects = sg.DIALECTS()
+    dialects = the_dialects()
     base = case["base"]
     try:
         if case["kind"] == "tree":
